@@ -35,7 +35,7 @@ ASSUMPTIONS = [
 REQUIRED_LABELS = {"all": ["backend:gaussian", "backend:fock", "backend:bosonic", "list_vs_successive", "reset_then_run", "feedforward_across_segments",
                            "dagger_decomposed", "rerun_same_object", "compile_untouched"]}
 
-ALPH = ["Dgate", "Sgate", "Rgate", "BSgate", "S2gate", "MZgate", "Xgate", "Zgate", "Pgate", "CXgate", "Fouriergate", "LossChannel", "Coherent", "Squeezed"]
+ALPH = ["Dgate", "Sgate", "Rgate", "BSgate", "S2gate", "MZgate", "Xgate", "Zgate", "Pgate", "CXgate", "CZgate", "Fouriergate", "LossChannel", "Coherent", "Squeezed"]
 BACKENDS = ["gaussian", "fock", "bosonic"]
 N = 2
 
@@ -49,14 +49,14 @@ def segment_ops(draw, measured, allow_ff=True):
     """1..4 commands; may measure a mode (select) and may use an earlier measured value"""
     ops_ = draw(gen.op_list(N, ALPH, "fock", 1, 3, no_mz_dagger=True))
     for o in ops_:
-        if o[0] in ("Pgate", "CXgate", "Xgate", "Zgate"):
+        if o[0] in ("Pgate", "CXgate", "CZgate", "Xgate", "Zgate"):
             o[1][0] = float(np.clip(o[1][0], -0.3, 0.3))
     if draw(st.integers(0, 3)) == 0:
         # a mergeable neighbour: same operation on the same modes with its own parameters (what the optimiser merges)
         k = draw(st.integers(0, len(ops_) - 1))
         if ops_[k][0] not in ("Coherent", "Squeezed", "MZgate"):
             twin = [ops_[k][0], draw(gen.op_params(ops_[k][0], "fock")), list(ops_[k][2]), dict(ops_[k][3])]
-            if twin[0] in ("Pgate", "CXgate", "Xgate", "Zgate"):
+            if twin[0] in ("Pgate", "CXgate", "CZgate", "Xgate", "Zgate"):
                 twin[1][0] = float(np.clip(twin[1][0], -0.3, 0.3))
             ops_.insert(k + 1, twin)
     extra = draw(st.sampled_from(["none", "none", "measure", "feedforward", "free"]))
@@ -301,7 +301,7 @@ class World:
                 return self.ctx.fail("run.mutated_program.%s" % b, "re-running changed the user's program: " + d)
         return None
 
-    def compile_check(self, compiler, optimize=False):
+    def compile_check(self, compiler, optimize=False, shots=None):
         """compile (optionally with optimize=True, or Program.optimize() for compiler 'optimize') a freshly built copy of the first
         executed segment: source untouched, result is another object, and running the compiled program gives the same state; the
         source, run afterwards, still gives the same state"""
@@ -321,7 +321,12 @@ class World:
                 sn = spec.snapshot(p)
             if optimize:
                 self.labels.add("compile_with_optimize")
-            c = p.optimize() if compiler == "optimize" else p.compile(compiler=compiler, optimize=optimize)
+            kw = {} if shots is None else {"shots": shots}  # run options given to compile() belong to the compiled copy only
+            if kw:
+                self.labels.add("compile_with_run_options")
+            c = p.optimize() if compiler == "optimize" else p.compile(compiler=compiler, optimize=optimize, **kw)
+            if kw and compiler != "optimize" and c.run_options.get("shots") != shots:
+                return self.ctx.fail("compile.run_option_not_stored", "compile(shots=%r) returned a program with run_options %r" % (shots, c.run_options))
         except CircuitError:
             return None
         except Exception as exc:  # pylint: disable=broad-except
@@ -333,7 +338,8 @@ class World:
             return self.ctx.fail("compile.mutated_program.%s" % compiler, "compile(%s) changed the user's program: %s" % (compiler, d))
         try:
             np.random.seed(7)
-            res = self._fresh_engine("gaussian").run(c, args={"a": self.bind["a"]} if "a" in c.free_params else None)
+            # (shots stored in the compiled copy are overridden: homodyne with several shots is not implemented on this backend)
+            res = self._fresh_engine("gaussian").run(c, args={"a": self.bind["a"]} if "a" in c.free_params else None, **({} if shots is None else {"shots": 1}))
         except Exception as exc:  # pylint: disable=broad-except
             return self._crash("gaussian", exc, "run_compiled_" + compiler) or None
         r = self.compare("gaussian", res.state, [seg0], "run_compiled.%s" % compiler)
@@ -396,7 +402,7 @@ def check_history(ctx, case):
         elif a[0] == "rerun":
             r = w.rerun_last()
         elif a[0] == "compile":
-            r = w.compile_check(a[1], bool(a[2]) if len(a) > 2 else False)
+            r = w.compile_check(a[1], bool(a[2]) if len(a) > 2 else False, a[3] if len(a) > 3 else None)
         elif a[0] == "failing_run":
             r = w.failing_run()
     if w.pending:
@@ -451,10 +457,10 @@ def make_machine(ctx):
             self.world.rerun_last()
 
         @precondition(lambda self: self.world is not None and self.world.executed)
-        @rule(compiler=st.sampled_from(["gaussian", "fock", "bosonic", "gaussian_unitary", "optimize"]), optimize=st.booleans())
-        def compile(self, compiler, optimize):
-            self.case["history"].append(["compile", compiler, optimize])
-            self.world.compile_check(compiler, optimize)
+        @rule(compiler=st.sampled_from(["gaussian", "fock", "bosonic", "gaussian_unitary", "optimize"]), optimize=st.booleans(), shots=st.sampled_from([None, None, 7]))
+        def compile(self, compiler, optimize, shots):
+            self.case["history"].append(["compile", compiler, optimize, shots])
+            self.world.compile_check(compiler, optimize, shots)
 
         @rule()
         def failing_run(self):
